@@ -389,7 +389,7 @@ func (e *m4Env) runScenario(run *vlib.Run, caseIdx int, sc m4Scenario) {
 	}
 	f := e.call(sc, ctx, ctl)
 	activity := func() int64 { return atomic.LoadInt64(&ctl.events) + atomic.LoadInt64(&e.gw.calls) }
-	status, rec := callGuarded(sc.Target, activity, time.Second, 10*time.Second, f)
+	status, rec := callGuarded(sc.Target, activity, time.Second, 10*time.Second, 0, f)
 	wit := func(what string) map[string]interface{} {
 		select {
 		case <-ctl.cancelled:
